@@ -167,7 +167,8 @@ func ledgerScenario(c *Ctx, p ledgerParams) {
 				}
 			}
 		case r < 54: // empty transaction
-			t := w.NewTrx(pick(c, w.wallets), pick(c, w.wallets).Address(), spice.Melange{}, nil)
+			// neither spice nor data; the data field absent, or present with no bytes in it
+			t := w.NewTrx(pick(c, w.wallets), pick(c, w.wallets).Address(), spice.Melange{}, pick(c, [][]byte{nil, {}, make([]byte, 0, 16)}))
 			w.Propose(n, &t)
 		case r < 55: // non-canonical amount: proposed locally and offered by gossip (sealed by a wallet we control)
 			amt := spice.Melange{Currency: uint64(c.Rnd.Intn(2)), SupplementaryCurrency: pick(c, []uint64{maxSupp, maxSupp + 1, 1<<64 - 1})}
@@ -219,6 +220,7 @@ func ledgerScenario(c *Ctx, p ledgerParams) {
 				amt = spice.Melange{Currency: 1}
 			case 4: // empty transaction sealed by someone else
 				issuer = pick(c, w.wallets)
+				data = pick(c, [][]byte{nil, {}, make([]byte, 0, 16)})
 			}
 			t := w.NewTrx(issuer, pick(c, w.wallets).Address(), amt, data)
 			left, right := s.Leaves[0], s.Leaves[len(s.Leaves)-1]
